@@ -423,7 +423,20 @@ S_SMOOTH = L(st.fixed_dictionaries({"smoothing": st.one_of(st.sampled_from([0.0,
 S_ONEHOT = L(st.just({}))
 
 
-def F(name, fn, strat, q=500, t=6000):
+def _seed_forms(fn):
+    """a third of the seeded cases hand the seed over as a numpy integer (an element of an array of seeds)"""
+    def run(spec):
+        if spec.get("seed_form") == "numpy" and "seed" in spec:
+            spec = dict(spec, seed=np.int64(spec["seed"]))
+        return fn(spec)
+    return run
+
+
+def F(name, fn, strat, q=500, t=6000, np_seed=True):
+    # (KDRandomClassWrapper seeds a torch generator, which rejects numpy integers with a TypeError - a clean refusal, not generated)
+    if np_seed:
+        strat = strat.flatmap(lambda s: st.sampled_from(["int", "int", "numpy"]).map(lambda f: dict(s, seed_form=f)) if "seed" in s else st.just(s))
+        fn = _seed_forms(fn)
     return Facet(name, fn, strategy=lambda tier, s=strat: s, budget={"quick": q, "thorough": t},
                  shards={"quick": 1, "thorough": 4}, min_nontrivial={"quick": q // 12, "thorough": t // 12}, case_timeout=60)
 
@@ -435,14 +448,14 @@ S_STACKED = L(st.fixed_dictionaries({"chain": st.lists(st.fixed_dictionaries({
 
 FACETS = [
     F("stacked-wrappers", check_stacked, S_STACKED, q=600, t=8000),
-    F("encoding-follows-class-count", guarded("encoding-follows-class-count", check_encoding_follows_class_count), S_RECONF, q=200, t=2000),
+    F("encoding-follows-class-count", guarded("encoding-follows-class-count", check_encoding_follows_class_count), S_RECONF, q=200, t=2000, np_seed=False),
     F("class-groups", check_class_groups, S_GROUPS),
     F("random-superclass", check_random_superclass, S_SUPER),
     F("swap-label", check_swap_label, S_SWAP),
     F("overwrite-classes", check_overwrite, S_OVERWRITE),
     F("allgather", check_allgather, S_ALLGATHER),
     F("pseudo-label", check_pseudo_label, S_PSEUDO, q=800, t=9000),
-    F("random-class", check_random_class, S_RANDCLS),
+    F("random-class", check_random_class, S_RANDCLS, np_seed=False),
     F("semi", check_semi, S_SEMI),
     F("label-smoothing", check_label_smoothing, S_SMOOTH),
     F("one-hot", check_one_hot, S_ONEHOT),
